@@ -14,6 +14,7 @@ import (
 	"strings"
 
 	"github.com/mgtv-tech/redis-GunYu/config"
+	"github.com/mgtv-tech/redis-GunYu/pkg/log"
 	"github.com/mgtv-tech/redis-GunYu/pkg/redis"
 	"github.com/mgtv-tech/redis-GunYu/pkg/redis/client/common"
 )
@@ -234,7 +235,7 @@ func VerifC06SyncMeta() {
 		verifAssume(outSp0.Offset <= src.secondOff-1)
 	}
 
-	ri := &RedisInput{inputAddr: "src", channel: cache, output: out}
+	ri := &RedisInput{inputAddr: "src", channel: cache, output: out, logger: log.WithLogger("[verif] ")}
 	cli := redis.VerifNewStandalone(src)
 	isFull, rdbSize, locSp, outSp, err := ri.syncMeta(context.Background(), cli)
 	verifAssert(err == nil, "C06.syncmeta-error")
